@@ -12,7 +12,7 @@ DICT = ["#if", "#ifdef", "#ifndef", "#elif", "#else", "#endif", "#define", "#und
         "&", "&&", "|", "||", "^", "%", "/", "*", "+", "-", "0", "1", "0x", "0b", "1'000", "1e", "1.", ".5", "0x1p", "18446744073709551616", "'a'", "'\\x'",
         "sizeof", "alignof", "decltype", "noexcept", "constexpr", "static_assert", "friend", "virtual", "override", "final", "= 0", "= default", "= delete",
         "__published", "__begin_publish", "__end_publish", "MAKE_PROPERTY", "MAKE_SEQ", "BLOCKING", "EXTENSION", "extern \"C\"", "__attribute__((", "[[", "]]",
-        "auto", "const", "volatile", "mutable", "static", "inline", "explicit", "concept", "requires", "this", "nullptr", "true", "false", "\x00", "\xff", "\r\n", "\t", "\n"]
+        "struct nn::", "class ::q::", "enum e::", "#pragma pop_macro(\"x\")", "#pragma push_macro(\"x\")", "auto", "const", "volatile", "mutable", "static", "inline", "explicit", "concept", "requires", "this", "nullptr", "true", "false", "\x00", "\xff", "\r\n", "\t", "\n"]
 
 EDGE = [
     "#if 1/0\n#endif\n", "#if 1%0\n#endif\n", "#if (\n#endif\n", "#if 1 ? 2\n#endif\n", "#if defined(\n#endif\n", "#if defined\n#endif\n", "#if __has_include(\n#endif\n",
@@ -34,6 +34,10 @@ EDGE = [
     "template<class T> struct A { typename T::x y; }; A<int> a;\n", "template<int N> struct F { enum { v = N * F<N-1>::v }; }; int x = F<5>::v;\n", "template<class T> struct A : A<T*> {}; A<int> a;\n",
     "template<class... T> struct V { V<T..., int> *n; }; V<> v;\n", "template<int N> struct F { enum { v = F<N-1>::v }; static const int x = F<5>::v; };\n",
     "template<int N> struct F { enum { v = N * F<N-1>::v }; int x = F<5>::v; };\n", "template<class T> struct G { typedef typename G<T*>::t t; t x; };\nG<int>::t y;\n", "struct A { A a; };\n", "struct A; struct B { A a; };\n", "typedef struct A A; struct A { A *a; };\n", "enum class E : E {};\n", "int x = x;\n", "int x = sizeof(x)/0;\n",
+    "void attach(struct nett::Socket *sock);\n", "struct a::b::C *p;\n", "int x = sizeof(struct q::R *);\n", "template<class T> struct X {}; X<struct zz::Y> v;\n", "enum ee::E f();\n",
+    "class ::nope::K *g;\n", "union u::V w(struct s::T);\n", "typedef struct t::U U2;\n", "struct S { struct S::in::X *p; };\n", "void f(enum class m::E e);\n",
+    "#pragma push_macro(\"X\")\n#pragma pop_macro(\"X\")\n#pragma pop_macro(\"X\")\nint a = X;\n", "#define X 1\n#pragma push_macro(\"X\")\n#undef X\n#pragma pop_macro(\"X\")\n#pragma pop_macro(\"X\")\nint a = X;\n#if X\n#endif\n",
+    "#pragma pop_macro(\"never\")\nint a = never;\n", "#pragma push_macro(\"P\")\n#pragma push_macro(\"P\")\n#define P 2\n#pragma pop_macro(\"P\")\n#pragma pop_macro(\"P\")\n#pragma pop_macro(\"P\")\nint p = P;\n",
     "\x00", "\xff\xfe", "int \xc3\xa9 = 1;\n", "int x;\x00int y;\n", "\r", "int x;\r\nint y;\r\n", "\x1a",
 ]
 
